@@ -502,6 +502,30 @@ Example session_concrete :
   end.
 Proof. exact KeyFormatSession.session_concrete. Qed.
 
+(* ================= BIP38 hand-over of the decrypted secret ================= *)
+(* Key.__init__ hands the 32-byte result of the BIP38 decryption of a COMPRESSED key to itself as 'bin_compressed'.  In that
+   form the compression marker is dropped behind a 32 / 64 / 128-byte key only (33 / 65 / 129 bytes in all): a 32-byte secret
+   keeps every byte and gets compressed = true, whatever its last byte is (01 included).  The decryption itself (scrypt, AES)
+   is C15; that the implementation follows this on secrets with tail 01 is discharged by the oracle on bip38rt requests
+   (frozen texts of corpus/C12/bip38_special.json + the library's own encrypt -> import round trip). *)
+Theorem bip38_secret_32_bytes_kept : forall fold wc b compressed,
+  length b = 32%nat -> key_private_part fold wc (KBytes b) FBinCompressed compressed = Ok (b, true).
+Proof. exact KeyFormatSession.bin_compressed_32_keeps_every_byte. Qed.
+
+Theorem bin_compressed_marker_needs_33_65_129 : forall fold wc b compressed,
+  length b <> 33%nat -> length b <> 65%nat -> length b <> 129%nat ->
+  key_private_part fold wc (KBytes b) FBinCompressed compressed = Ok (b, true).
+Proof. exact KeyFormatSession.bin_compressed_marker_only_at_33_65_129. Qed.
+
+(* hypotheses satisfiable: a 32-byte secret with tail 01; and the marker IS dropped at 33 bytes *)
+Example bip38_secret_tail_01_kept :
+  key_private_part false true (KBytes (repeat x5a 31 ++ [x01])) FBinCompressed false = Ok (repeat x5a 31 ++ [x01], true).
+Proof. apply bip38_secret_32_bytes_kept. reflexivity. Qed.
+
+Example bin_compressed_33_marker_dropped :
+  key_private_part false true (KBytes (repeat x5a 32 ++ [x01])) FBinCompressed false = Ok (repeat x5a 32, true).
+Proof. vm_compute. reflexivity. Qed.
+
 Print Assumptions wif_roundtrip.
 Print Assumptions network_resolution_sound.
 Print Assumptions network_resolution_refusal.
@@ -549,3 +573,5 @@ Print Assumptions xkey_default_arguments.
 Print Assumptions xkey_own_values_as_arguments.
 Print Assumptions session_wif_roundtrip.
 Print Assumptions session_xkey_is_stateless_export.
+Print Assumptions bip38_secret_32_bytes_kept.
+Print Assumptions bin_compressed_marker_needs_33_65_129.
